@@ -60,7 +60,7 @@ class WbIcHarness(Harness):
          ages[m]    = cycles the request of m has been on the arbitrated bus without termination (time-out runs)"""
 
     def __init__(self, name, kind, nm, ns, register=False, timeout=None, maxlat=2, unmapped=True, err=True, faults=False,
-                 back_to_back=True, decoded=True, cap=None, pauses=False, dw=DW, adr_widths=None):
+                 back_to_back=True, decoded=True, cap=None, pauses=False, dw=DW, adr_widths=None, writes_only_zero_wait=False):
         self.name, self.kind, self.nm, self.ns = name, kind, nm, ns
         self.adr_widths = list(adr_widths) if adr_widths else None
         self.dw, self.ones, self.selall = dw, (1 << dw) - 1, (1 << (dw//8)) - 1      # bus width: idle / time-out data is all-ones over the whole word
@@ -69,6 +69,11 @@ class WbIcHarness(Harness):
         self.decoded = kind in ("shared", "crossbar", "decoder")
         self.has_timeout = timeout is not None and kind in ("shared", "timeout")
         self.minlat = 1 if register else 0
+        # registered decode delays the read-data select by a cycle (documented: "breaks Wishbone combinatorial feedback"), so zero-wait slaves
+        # are only legal for WRITES there: a separate run with writes only and slaves that may answer at once
+        self.wes = (1,) if writes_only_zero_wait else (0, 1)
+        if writes_only_zero_wait:
+            self.minlat = 0
         self.pauses = pauses               # masters may keep cyc with stb low between the transfers of one bus cycle
         if cap:
             self.cap = cap
@@ -108,11 +113,11 @@ class WbIcHarness(Harness):
             if ph == "R":
                 per.append([("hold",)])
             elif ph == "P":
-                per.append([("idle",), ("pause",)] + [("req", tg, w) for w in (0, 1)])
+                per.append([("idle",), ("pause",)] + [("req", tg, w) for w in self.wes])
             else:
                 c = [("idle",)]
                 if ph == "I" or self.b2b:
-                    c += [("req", t, w) for t in self.mtargets[m] for w in (0, 1)]
+                    c += [("req", t, w) for t in self.mtargets[m] for w in self.wes]
                 if ph == "T" and self.pauses:
                     c.append(("pause",))
                 per.append(c)
